@@ -128,8 +128,11 @@ macro_rules! fb_impl {
 
 /// (w, h, extra) of the instantiated types; MC_C10.CfgsQuick is the first six
 // (3, 2, 40): an oversized buffer with room for several spare ROWS at every depth
-const FB_SIZES: [(usize, usize, usize); 10] =
-    [(1, 1, 0), (3, 2, 0), (3, 2, 2), (5, 1, 0), (9, 2, 0), (9, 2, 2), (13, 3, 0), (16, 1, 1), (1, 17, 0), (3, 2, 40)];
+// (4, 3) (6, 4) (12, 2) (2, 5) (8, 3): rows that END ON A BYTE BOUNDARY at 2 / 4 bpp although the width is not a multiple
+// of 8 (and one that is), with more than one row - every other size has padded rows or a single row
+const FB_SIZES: [(usize, usize, usize); 15] =
+    [(1, 1, 0), (3, 2, 0), (3, 2, 2), (5, 1, 0), (9, 2, 0), (9, 2, 2), (13, 3, 0), (16, 1, 1), (1, 17, 0), (3, 2, 40),
+     (4, 3, 0), (6, 4, 3), (12, 2, 0), (2, 5, 0), (8, 3, 1)];
 
 macro_rules! fb_types {
     ($(($bpp:expr, $ord:expr, $C:ty, $O:ty)),*) => {
@@ -144,6 +147,11 @@ macro_rules! fb_types {
             fb_impl!($C, $O, 16, 1, 1);
             fb_impl!($C, $O, 1, 17, 0);
             fb_impl!($C, $O, 3, 2, 40);
+            fb_impl!($C, $O, 4, 3, 0);
+            fb_impl!($C, $O, 6, 4, 3);
+            fb_impl!($C, $O, 12, 2, 0);
+            fb_impl!($C, $O, 2, 5, 0);
+            fb_impl!($C, $O, 8, 3, 1);
         )*
         fn make_fb(bpp: i64, ord: i64, w: i64, h: i64, x: i64) -> Option<Box<dyn Fb>> {
             $(
@@ -159,6 +167,11 @@ macro_rules! fb_types {
                         (16, 1, 1) => Some(Box::new(Framebuffer::<$C, <$C as PixelColor>::Raw, $O, 16, 1, { buffer_size::<$C>(16, 1) + 1 }>::new())),
                         (1, 17, 0) => Some(Box::new(Framebuffer::<$C, <$C as PixelColor>::Raw, $O, 1, 17, { buffer_size::<$C>(1, 17) }>::new())),
                         (3, 2, 40) => Some(Box::new(Framebuffer::<$C, <$C as PixelColor>::Raw, $O, 3, 2, { buffer_size::<$C>(3, 2) + 40 }>::new())),
+                        (4, 3, 0) => Some(Box::new(Framebuffer::<$C, <$C as PixelColor>::Raw, $O, 4, 3, { buffer_size::<$C>(4, 3) }>::new())),
+                        (6, 4, 3) => Some(Box::new(Framebuffer::<$C, <$C as PixelColor>::Raw, $O, 6, 4, { buffer_size::<$C>(6, 4) + 3 }>::new())),
+                        (12, 2, 0) => Some(Box::new(Framebuffer::<$C, <$C as PixelColor>::Raw, $O, 12, 2, { buffer_size::<$C>(12, 2) }>::new())),
+                        (2, 5, 0) => Some(Box::new(Framebuffer::<$C, <$C as PixelColor>::Raw, $O, 2, 5, { buffer_size::<$C>(2, 5) }>::new())),
+                        (8, 3, 1) => Some(Box::new(Framebuffer::<$C, <$C as PixelColor>::Raw, $O, 8, 3, { buffer_size::<$C>(8, 3) + 1 }>::new())),
                         _ => None,
                     };
                 }
